@@ -15,14 +15,13 @@ Follows, branch by branch:
 * `NameCheckVisitor.prepare_constructor_kwargs` (name_check_visitor.py:5810): settings / keyword
   values become `from_command_line=True` instances placed before the file instances.
 
-Defects are modelled as they are:
-* `_parse_config_section` never passes its `priority` to the instances it creates
-  (`option_cls(option_cls.parse(value, path), module_path)`), so every file instance has
-  priority 0 (`fileInst`);
-* `IntegerOption.parse` accepts booleans (`isinstance(True, int)`);
-* `disable_all` is used by truthiness, never type-checked;
-* `ConcatenatedOption.get_value_from_instances` appends the default although
-  `_get_value_for_no_default` has already added a default instance (default appears twice).
+The model follows the tree repaired by the fix commits 67f91cf (instances carry the `priority` of
+their file: the including file 0, each `extend_config` level + 1), 7e56ba6 (`IntegerOption.parse`
+rejects booleans), df9545b (`disable_all` must be a boolean) and 4427783 (the default of a
+concatenated option is contributed once, by the default instance of `_get_value_for_no_default`).
+One deviation from the property's sentence remains and is modelled as it is: `PathSequenceOption`
+is list-valued but derives from the plain `ConfigOption`, so the first applicable instance wins
+(class `D18_pathListNoConcat`).
 
 Not modelled: `PyObjectSequenceOption` / `IgnoredPaths` values (kind `other`; the parser model
 answers `unmodelled`), path resolution (`Path.resolve`, files are atoms in one directory), TOML
@@ -30,7 +29,7 @@ syntax (the input is the already decoded `tool.pyanalyze` table), argparse.
 
 No imports: this file must stay core-only so the drivers start fast.
 -/
-namespace Pya
+namespace Pya.C18
 
 /-- A decoded TOML value. `float` only records whether it is non-zero (truthiness). -/
 inductive TV where
@@ -127,9 +126,10 @@ def getFirst (d : OptDecl) (insts : List Inst) (mod : List String) : Val :=
   | none => d.dflt
 
 /-- options.py:168 `ConcatenatedOption.get_value_from_instances`
-(`values += instance.value` for every applicable instance, then `values += cls.default_value`). -/
+(`values += instance.value` for every applicable instance; the default comes from the default
+instance that `_get_value_for_no_default` appends). -/
 def getConcat (d : OptDecl) (insts : List Inst) (mod : List String) : Val :=
-  .strs ((((candidates d insts).filter (·.applicable mod)).flatMap (·.val.asStrs)) ++ d.dflt.asStrs)
+  .strs (((candidates d insts).filter (·.applicable mod)).flatMap (·.val.asStrs))
 
 /-- `Options.for_module(mod).get_value_for(option)`; `StringSequenceOption` is the only modelled
 `ConcatenatedOption` (`PathSequenceOption` derives from plain `ConfigOption`, options.py:204). -/
@@ -146,8 +146,7 @@ def allStr : List TV → Option (List String)
 def parseValue (k : OptKind) (v : TV) : Option Val :=
   match k, v with
   | .bool, .bool b => some (.bool b)                       -- options.py:133
-  | .int, .int n => some (.int n)                          -- options.py:150
-  | .int, .bool b => some (.bool b)                        -- isinstance(True, int) (defect)
+  | .int, .int n => some (.int n)                          -- options.py:150 (booleans excluded)
   | .strSeq, .arr xs => (allStr xs).map .strs              -- options.py:188
   | .pathSeq, .arr xs => (allStr xs).map .paths            -- options.py:211
   | _, _ => none
@@ -157,17 +156,9 @@ def parseValue (k : OptKind) (v : TV) : Option Val :=
 inductive CfgErr where
   | topLevelModule | extendNotStr | cannotOpen | recursive | nestedOverrides
   | overridesNotList | overrideNotDict | overrideModule
+  | disableNotBool
   | unknownKey (k : String) | badValue (opt : String) | unmodelled (opt : String) | fuel
   deriving DecidableEq, Repr, Inhabited
-
-/-- Python truthiness of a decoded TOML value (`if disable_all_default_error_codes:`). -/
-def TV.truthy : TV → Bool
-  | .bool b => b
-  | .int n => n != 0
-  | .str s => s != ""
-  | .float nz => nz
-  | .arr xs => !xs.isEmpty
-  | .tbl kvs => !kvs.isEmpty
 
 def lookupKey (kvs : Table) (k : String) : Option TV := (kvs.find? (·.1 == k)).map (·.2)
 
@@ -183,10 +174,10 @@ def splitChars (sep : Char) : List Char → List (List Char)
 /-- `override["module"].split(".")` (options.py:411). -/
 def pySplit (s : String) : List String := (splitChars '.' s.toList).map String.ofList
 
-/-- The instance `_parse_config_section` creates (options.py:428, :434): the `priority`
-parameter is *not* passed on, so it is 0. -/
-def fileInst (name : String) (v : Val) (modPath : List String) : Inst :=
-  { name := name, val := v, app := modPath, cli := false, prio := 0 }
+/-- The instance `_parse_config_section` creates (`option_cls(value, module_path,
+priority=priority)`). -/
+def fileInst (name : String) (v : Val) (modPath : List String) (prio : Nat) : Inst :=
+  { name := name, val := v, app := modPath, cli := false, prio := prio }
 
 /-- Loop state of `_parse_config_section`: instances yielded so far, `enabled_error_codes`,
 `disable_all_default_error_codes`. -/
@@ -213,7 +204,9 @@ def sectionStep (reg : Registry) (ext : String → Nat → Except CfgErr (List I
     let r ← onOv value
     pure { st with out := st.out ++ r }
   else if key == "disable_all" then
-    .ok { st with disable := value.truthy }
+    match value with
+    | .bool b => .ok { st with disable := b }
+    | _ => .error .disableNotBool
   else
     match reg.find key with
     | none => .error (.unknownKey key)
@@ -224,13 +217,13 @@ def sectionStep (reg : Registry) (ext : String → Nat → Except CfgErr (List I
         | _ => st.enabled
       match parseValue d.kind value with
       | none => .error (.badValue key)
-      | some v => .ok { st with out := st.out ++ [fileInst key v modPath], enabled := enabled }
+      | some v => .ok { st with out := st.out ++ [fileInst key v modPath prio], enabled := enabled }
 
 /-- options.py:430‥434: after the loop, `disable_all` yields `False` for every error code that
 was not explicitly enabled in this section. -/
-def disableTail (reg : Registry) (modPath : List String) (st : SecState) : List Inst :=
+def disableTail (reg : Registry) (modPath : List String) (prio : Nat) (st : SecState) : List Inst :=
   if st.disable then
-    (reg.codes.filter (fun c => !st.enabled.contains c)).map (fun c => fileInst c (.bool false) modPath)
+    (reg.codes.filter (fun c => !st.enabled.contains c)).map (fun c => fileInst c (.bool false) modPath prio)
   else []
 
 /-- `_parse_config_section` (options.py:368). -/
@@ -239,7 +232,7 @@ def parseSection (reg : Registry) (ext : String → Nat → Except CfgErr (List 
     (items : Table) : Except CfgErr (List Inst) := do
   if modPath.isEmpty && items.any (·.1 == "module") then throw .topLevelModule
   let st ← items.foldlM (sectionStep reg ext onOv modPath prio) {}
-  pure (st.out ++ disableTail reg modPath st)
+  pure (st.out ++ disableTail reg modPath prio st)
 
 /-- The `overrides` branch for a section whose `module_path` is non-empty (options.py:400). -/
 def nestedOv : TV → Except CfgErr (List Inst) := fun _ => .error .nestedOverrides
@@ -294,4 +287,4 @@ def effective (reg : Registry) (fs : FS) (fuel : Nat) (main : String) (cli : Lis
   let fileInsts ← parseFile reg fs fuel main 0 []
   pure (getValueFor d (cliInsts cli ++ fileInsts) mod)
 
-end Pya
+end Pya.C18
